@@ -25,7 +25,12 @@ func init() {
 			{"C08.R6", "q", "key hash reconstruction parameters", c08r6},
 			{"C08.R7", "q", "no hash bits lost in a leaf", c08r7},
 			{"C08.R8", "q", "leaf entry geometry agrees across set/get/remove/iterate/find", c08r8},
+			{"C08.R9", "q", "key hash of a leaf entry reconstructed from node path and stored bytes; entry search compares the stored bytes", c08r9},
 			{"C10.R1", "q", "shared: the value hash entering the tree is taken before compression", c10r1},
+			{"C15.R9", "q", "shared: path keys invert ParsePathUint64 for all 16 digits", c15r9},
+			{"C01.R10", "q", "shared: tree items carry position, version and value hash", c01r10},
+			{"C02.R9", "q", "shared: choice of the tree dump at start-up", c02r9},
+			{"C10.R8", "q", "shared: value hashes are taken over decompressed bytes", c10r8},
 		},
 	})
 }
